@@ -176,6 +176,7 @@ class Cas:
                     handles[n.optional_vars.id] = n
                 if isinstance(c.func, ast.Attribute) and c.func.attr == "open" and names_in(c.func.value) & self.aliases and fsm.open_mode(c, 0) in ("r", "rt", "rb"):
                     handles[n.optional_vars.id] = n
+        self._read_handles = handles
         for n in walk_no_nested(fa.fi.node):
             if isinstance(n, ast.Assign) and len(n.targets) == 1 and isinstance(n.targets[0], ast.Name) and isinstance(n.value, ast.Call):
                 c = n.value
@@ -189,6 +190,7 @@ class Cas:
         """locals bound to hash(<text read from target>): var -> [(assign stmt, read var)]"""
         reads = self._read_vars()
         self.read_vars = reads
+        handles = self._read_handles
         out: dict[str, list[tuple[ast.AST, str]]] = {}
         for n in walk_no_nested(self.fa.fi.node):
             if isinstance(n, ast.Assign) and len(n.targets) == 1 and isinstance(n.targets[0], ast.Name) and isinstance(n.value, ast.Call):
@@ -196,6 +198,14 @@ class Cas:
                 fname = ast.unparse(c.func)
                 if fname.endswith("compute_hash") and len(c.args) == 1 and isinstance(c.args[0], ast.Name) and c.args[0].id in reads:
                     out.setdefault(n.targets[0].id, []).append((n, c.args[0].id))
+                elif fname.endswith("compute_hash") and len(c.args) == 1 and isinstance(c.args[0], ast.Call) and isinstance(c.args[0].func, ast.Attribute):
+                    # the text is read inside the hash call: compute_hash(<target>.read_text()) / compute_hash(<handle>.read())
+                    r = c.args[0]
+                    direct = (r.func.attr == "read" and isinstance(r.func.value, ast.Name) and r.func.value.id in handles and not r.args) or (r.func.attr in ("read_text", "read_bytes") and bool(names_in(r.func.value) & self.aliases))
+                    if direct:
+                        key = f"<read at line {n.lineno}>"
+                        reads.setdefault(key, []).append(n)
+                        out.setdefault(n.targets[0].id, []).append((n, key))
         return out
 
     def _compare_nodes(self) -> dict[int, dict]:
